@@ -3,6 +3,7 @@ package main
 // Readiness plumbing (C08), atomic handlers (C15), watch-failure containment (C14).
 
 import (
+	"go/types"
 	"fmt"
 	"go/token"
 	"strings"
@@ -557,8 +558,22 @@ func checkAppendBases(c *Ctx, rels []string) {
 		for _, f := range c.P.SrcFuncs(rel) {
 			for _, b := range f.Blocks {
 				for _, in := range b.Instrs {
-					mk, ok := in.(*ssa.MakeSlice)
-					if !ok {
+					// make([]T, len, cap) is a MakeSlice, or — with a constant capacity — `new [cap]T` sliced to [:len]
+					var mk ssa.Value
+					var lenV ssa.Value
+					switch x := in.(type) {
+					case *ssa.MakeSlice:
+						mk, lenV = x, x.Len
+					case *ssa.Slice:
+						if al, isAlloc := x.X.(*ssa.Alloc); isAlloc && al.Heap && x.Low == nil {
+							if pt, isPtr := al.Type().Underlying().(*types.Pointer); isPtr {
+								if _, isArr := pt.Elem().Underlying().(*types.Array); isArr && strings.Contains(al.Comment, "makeslice") {
+									mk, lenV = x, x.High
+								}
+							}
+						}
+					}
+					if mk == nil {
 						continue
 					}
 					// does it (through phis) reach the first argument of an append?
@@ -587,7 +602,7 @@ func checkAppendBases(c *Ctx, rels []string) {
 					}
 					n++
 					c.sites++
-					k, isConst := constIntValue(mk.Len)
+					k, isConst := constIntValue(lenV)
 					c.check(isConst && k == 0, rule, fnName(f)+"/"+c.P.instrPos(in), c.P.instrPos(in), "append base made with length 0",
 						fnName(f)+" appends to a slice made with a non-zero length: the leading zero values become part of the result")
 				}
